@@ -38,6 +38,9 @@ def spec_eval(expr, ns):
     return eval(code, ns)
 
 
+CALL_TIMEOUT_S = 15
+
+
 class Deadlock(BaseException):
     pass
 
@@ -311,6 +314,8 @@ def _install_virtual_env():
             return real_time()
         if ctx._vscript:
             ctx._vclock = ctx._vscript.pop(0)
+        elif ('time.time!%d' % ctx._counters.get('time.time', 0)) in ctx.values:
+            ctx._vclock = ctx._next_time()      # the reading the symbolic run chose (exported with the model)
         ctx.trace.append(('time.time', (), {'value': ctx._vclock}))
         return ctx._vclock
 
@@ -505,8 +510,18 @@ class NativeCtx:
         self.ns['raised'] = None
         self.ns['exc'] = None
         self.ns['result'] = None
+        import signal
+
+        def on_alarm(signum, frame):
+            raise Deadlock('native call still blocked after %d s (blocking primitive never released)' % CALL_TIMEOUT_S)
+        old = signal.signal(signal.SIGALRM, on_alarm)
+        signal.alarm(CALL_TIMEOUT_S)
         try:
-            self.ns['result'] = f(*args, **kwargs)
+            try:
+                self.ns['result'] = f(*args, **kwargs)
+            finally:
+                signal.alarm(0)
+                signal.signal(signal.SIGALRM, old)
         except Deadlock as e:
             self.ns['raised'] = 'Deadlock'
             self.ns['exc'] = e
@@ -603,9 +618,25 @@ class NativeCtx:
             return self._tlast
         return self._f(v)
 
+    def patch(self, ref, value):
+        """(added for C20) replace the module / class attribute `ref` ('pkg.mod:Name' or 'pkg.mod:Class.attr') by
+        `value` for this run (hardware constructors, module-level driver lists ...); undone by unpatch()"""
+        modname, _, qual = ref.partition(':')
+        parts = qual.split('.')
+        parent = resolve(modname + ':' + '.'.join(parts[:-1]))
+        if parts[-1] not in vars(parent):
+            raise AttributeError('%s: nothing to patch' % ref)
+        self._patched.append((parent, parts[-1], vars(parent)[parts[-1]]))
+        setattr(parent, parts[-1], value)
+        return value
+
     def unpatch(self):
         for mod, nm, old in reversed(self._patched):
             setattr(mod, nm, old)
+
+    def concretize(self, expr, limit=64):
+        v = spec_eval(expr, self.ns) if isinstance(expr, str) else expr
+        return int(v)
 
     def invoke(self, target, *args, **kwargs):
         f = resolve(target) if isinstance(target, str) else (getattr(target[0], target[1]) if isinstance(target, tuple) else target)
@@ -682,7 +713,6 @@ class NativeCtx:
         ns['sent'] = lambda name: tuple(e for e in ns.get('trace', ()) if e[0] == name)
         ns['is_same'] = lambda a, b: a is b
         ns['field'] = getattr
-        ns['queue_items'] = lambda q: tuple(q.items) if isinstance(q, NativeQueue) else tuple(q.queue)
         import binascii
         ns['crc32'] = binascii.crc32
         ns['Deadlock'] = 'Deadlock'
